@@ -322,7 +322,9 @@ class Part(object):
             1 + self.beat_map(0)
         )  # find the divs per beat in the first measure
         # whole number of divs: the time maps are floating point interpolators
-        divs_per_measure = np.round(self.time_signature_map(0)[0] * divs_per_beat)
+        # count the beats of a full bar in the unit of the beat maps
+        beats_per_measure = self.time_signature_map(0)[2 if self._use_musical_beat else 0]
+        divs_per_measure = np.round(beats_per_measure * divs_per_beat)
         if measures[0][1] - measures[0][0] < divs_per_measure:
             measures[0][0] = measures[0][1] - divs_per_measure
 
@@ -378,7 +380,9 @@ class Part(object):
             1 + self.beat_map(0)
         )  # find the divs per beat in the first measure
         # whole number of divs: the time maps are floating point interpolators
-        divs_per_measure = np.round(self.time_signature_map(0)[0] * divs_per_beat)
+        # count the beats of a full bar in the unit of the beat maps
+        beats_per_measure = self.time_signature_map(0)[2 if self._use_musical_beat else 0]
+        divs_per_measure = np.round(beats_per_measure * divs_per_beat)
         if measures[0][1] - measures[0][0] < divs_per_measure:
             measures[0][0] = measures[0][1] - divs_per_measure
 
